@@ -25,7 +25,7 @@ TECHNIQUE = "machine-checked proof in Rocq (Coq) (symmetry lemmas, transport of 
 def run(ctx):
     common.serial_pool()
     rng = ctx.rng
-    for _ in range(ctx.scale(200, 2500)):
+    for _ in range(ctx.scale(450, 4000)):
         it = rng.choice(["matched", "unmatched", "unmatched", "semantic"])
         p, r = impl.rand_pair(rng, max_side=6, max_inst=4)
         cfg = gen_cfg(rng, it)
